@@ -304,7 +304,7 @@ def run(tier, seed, replay=None):
             vocab = g.soup_vocab(tables)
             heads = [["sh"], ["bash"], ["zsh"], ["env"], ["xargs"], ["find", "."], ["fd"], ["docker", "exec"], ["docker"], ["podman", "exec"],
                      ["kubectl", "exec"], ["kubectl"], ["k", "exec"], ["arch"], ["caffeinate"], ["script"], ["uv", "run"], ["uv"], ["docker-compose"], ["tar", "-xf", "a.tar"], ["tar"]]
-            for i, toks in enumerate(g.soups(rng, 4000 if tier == "quick" else 60000, heads, vocab)):
+            for i, toks in enumerate(g.soups(rng, 2500 if tier == "quick" else 60000, heads, vocab)):
                 _correspond(out, mcall, get_handler, HandlerContext, toks, cwd, ladder, rec=(i % 400 == 0))
                 out.case(["soup", toks], nontrivial=len(toks) > 2)
                 out.count("soup", toks[0])
